@@ -350,6 +350,7 @@ TEXT = ("Held on every log observed: ~680 (quick) / ~25 000 (thorough) problems 
         "row of every resulting log (~10 000 rows quick) is re-evaluated independently (targets exact, penalty 1e-12) "
         "and reloaded (knobs, flags), and every take_best step that returns is checked against the minimum penalty "
         "logged during that call. Exploration over sampled problems and call sequences."
-        ' Call sequences include directed move/disable/reload/step patterns, calls with an injected action fault at the k-th evaluation, and every row is reloaded coming from another row (preferably one with other flags). The other entry points of the same object (run_simplex, run_jacobian, run_bfgs, run_l_bfgs_b, run_ls_trf, run_ls_dogbox, solve_homotopy) are called in between: the rows they log are checked like any other (the penalty of rows logged INSIDE solve_homotopy, whose moving goal the harness does not know, is not compared).')
+        ' Call sequences include directed move/disable/reload/step patterns, calls with an injected action fault at the k-th evaluation, and every row is reloaded coming from another row (preferably one with other flags). The other entry points of the same object (run_simplex, run_jacobian, run_bfgs, run_l_bfgs_b, run_ls_trf, run_ls_dogbox, solve_homotopy) are called in between: the rows they log are checked like any other (the penalty of rows logged INSIDE solve_homotopy, whose moving goal the harness does not know, is not compared).'
+        ' 15 % of the problems start a few ppm / ulps inside a limit.')
 NOTE = "Trusted: the harness's own merit function and penalty formula; opt.log() as the recorded history under test."
 TECHNIQUE = "runtime monitoring: offline checker over the recorded optimizer log (independent re-evaluation and reload of every row; take_best minimum-penalty oracle per call)"
